@@ -4,6 +4,7 @@
 cd "$(dirname "$0")/.." || exit 2
 out=seeded/SELFTEST.txt; : > $out
 declare -A expect; expect[C12-2]=0     # inside inverse_gamma_lr_impl (uninterpreted): not detectable by this technique
+expect[C09-4]=2; expect[C17-3]=2     # restructured `sample`: overlays lose their anchors and no bounded stand-in reaches `sample` -> undecided (exit 2), never an alarm
 bad=0
 for d in seeded/C*-*/; do
   n=$(basename $d); id=${n%-*}
